@@ -1,6 +1,6 @@
 """C02 configuration."""
 PROP = dict(
-    quick_n=3000, thorough_n=100000,
+    quick_n=2700, thorough_n=100000,
     trusted_base=[
         "frozen.Set/Map are modelled as lists in enumeration order; frozen's Set.Equal is 'same count and same XOR of "
         "the element hashes, structural comparison only when that XOR is zero' (tree.Equal, FullHash), membership/insert "
@@ -27,7 +27,12 @@ PROP = dict(
         "targets: Lit.genLit depth <= 3 over a 3-letter alphabet, integers -2..3, attribute names a,b,c,x; negative pairs "
         "are mutants of the target (leaf change, wrap/unwrap, regrouping of nested sets, offset shift, string<->bytes); "
         "superimposed sequences (KF-superimposed) are not constructed",
-        "transition stratum (144 cases per quick run, every family on every run): a dict key going from 3->2, 2->1, 1->0 "
+        "transition stratum (240 cases per quick run, every family, operator and count transition on every run): joins and "
+        "compositions (<-> <&> -&> <&- --> <--, both operand orders, the value column from the left and from the right "
+        "operand) ending in a heading {@, @char|@item|@value|@byte}, compared with the string/array/dict/bytes literal; "
+        "shrinking a larger generic or union set to true, false/{} (each by &~ & ~~ where without =>, extras from the same "
+        "and from another bucket) and to a one-member string, array, byte array, dict, relation, generic set; "
+        "a dict key going from 3->2, 2->1, 1->0 "
         "values (and 3->1, 2->0; last key -> {}) via without / &~ / where / (| then &~) / => remapping, from relation-literal, "
         "set-of-tuples, with- and (d1 | d2 | d3) spellings; relations losing rows (3->2->1->0) or columns (-> 1); union sets "
         "losing one of two buckets (the rest must be the plain string/array/bytes/dict/relation/generic set) - each compared "
